@@ -164,12 +164,12 @@ func (h *MultiHandler) Accept(msg *Message) {
 
 	if msg.Broadcast {
 		if err := h.verifyBroadcastMessage(msg); err != nil {
-			h.abort(err, msg.From)
+			h.abortFrom(err, msg.From)
 			return
 		}
 	} else {
 		if err := h.verifyMessage(msg); err != nil {
-			h.abort(err, msg.From)
+			h.abortFrom(err, msg.From)
 			return
 		}
 	}
@@ -177,10 +177,38 @@ func (h *MultiHandler) Accept(msg *Message) {
 	h.finalize()
 }
 
+// errBroadcastVerification is returned when a sender's view of the previous round's broadcasts differs from ours.
+var errBroadcastVerification = errors.New("broadcast verification failed")
+
+// abortFrom aborts because of a message sent by `from`. A broadcast verification failure only shows that some
+// party sent different broadcasts to `from` and to us, so it names nobody.
+func (h *MultiHandler) abortFrom(err error, from party.ID) {
+	if errors.Is(err, errBroadcastVerification) {
+		h.abort(err)
+		return
+	}
+	h.abort(err, from)
+}
+
+// checkBroadcastHashOf checks the verification hash of a single message upon reception, before its content is
+// verified: the content of a message from a party with a different view of the previous round can fail
+// verification even though its sender is honest.
+func (h *MultiHandler) checkBroadcastHashOf(msg *Message) error {
+	previousHash := h.broadcastHashes[msg.RoundNumber-1]
+	if previousHash != nil && !bytes.Equal(previousHash, msg.BroadcastVerification) {
+		return errBroadcastVerification
+	}
+	return nil
+}
+
 func (h *MultiHandler) verifyBroadcastMessage(msg *Message) error {
 	r, ok := h.rounds[msg.RoundNumber]
 	if !ok {
 		return nil
+	}
+
+	if err := h.checkBroadcastHashOf(msg); err != nil {
+		return err
 	}
 
 	// try to convert the raw message into a round.Message
@@ -224,6 +252,10 @@ func (h *MultiHandler) verifyMessage(msg *Message) error {
 		}
 	}
 
+	if err := h.checkBroadcastHashOf(msg); err != nil {
+		return err
+	}
+
 	roundMsg, err := getRoundMessage(msg, r)
 	if err != nil {
 		return err
@@ -247,7 +279,7 @@ func (h *MultiHandler) finalize() {
 		return
 	}
 	if !h.checkBroadcastHash() {
-		h.abort(errors.New("broadcast verification failed"))
+		h.abort(errBroadcastVerification)
 		return
 	}
 
@@ -314,7 +346,7 @@ func (h *MultiHandler) finalize() {
 			}
 			// if false, we aborted and so we return
 			if err = h.verifyBroadcastMessage(m); err != nil {
-				h.abort(err, m.From)
+				h.abortFrom(err, m.From)
 				return
 			}
 		}
@@ -326,7 +358,7 @@ func (h *MultiHandler) finalize() {
 			}
 			// if false, we aborted and so we return
 			if err = h.verifyMessage(m); err != nil {
-				h.abort(err, m.From)
+				h.abortFrom(err, m.From)
 				return
 			}
 		}
